@@ -167,6 +167,9 @@ class SimCondition:
         me = sim.me()
         if not self.lock._is_owned():
             raise RuntimeError('cannot wait on un-acquired lock')
+        if timeout is not None and not timeout <= _real.TIMEOUT_MAX:
+            # as threading.Condition.wait does for inf / nan / huge values
+            raise OverflowError('timestamp out of range for platform time_t')
         saved = self.lock._release_save()
         me.state = 'waiting'
         me.notified = False
